@@ -1,7 +1,7 @@
 INIT Init
 NEXT Next
 CONSTANTS
-  ShtabBreaksDefaults = {"A"}
+  ShtabBreaksDefaults = {"A", "B"}
   ClearOnError = TRUE
 INVARIANT Inv
 CHECK_DEADLOCK FALSE
